@@ -935,8 +935,11 @@ def load(f, **options):  # type: (typing.IO, **typing.Any) -> canmatrix.CanMatri
                 temp = regexp.match(decoded)
                 temp_raw = regexp_raw.match(l)
                 if temp:
-                    db.add_define_default(temp.group(1),
-                                          temp_raw.group(2).decode(dbc_import_encoding))
+                    default_text = temp_raw.group(2).decode(dbc_import_encoding)
+                    # a default that is no number for an INT / HEX / FLOAT definition is a malformed line: skip it
+                    for defines in (db.signal_defines, db.frame_defines, db.ecu_defines, db.global_defines):
+                        check_numeric_attribute(defines, temp.group(1), default_text)
+                    db.add_define_default(temp.group(1), default_text)
             elif decoded.startswith("SG_MUL_VAL_ "):
                 pattern = r"^SG_MUL_VAL_ +([0-9]+) +([\S\-]+) +([\S\-]+) +(.*) *; *"
                 regexp = re.compile(pattern)
